@@ -82,6 +82,7 @@ def run(check, prog):
     tiff_description_name(check, prog)
     no_module_state(check, prog)
     dummy_marker(check, prog)
+    export_leaves_image(check, prog)
 
 
 def dummy_marker(check, prog):
@@ -132,6 +133,44 @@ def dummy_marker(check, prog):
                       'green / red (or green / blue, blue / red) image the marker is '
                       'lost and the file reloads with a third, flat channel' % (
                           show(key), [show(f) for f in orders]))
+
+
+def export_leaves_image(check, prog):
+    """U14: exporting an image does not change it -- neither the caller's array
+    nor, on the way, the values about to be written.  display_image prepares the
+    array a TIFF is written from (scaling, a padded third channel for two-colour
+    images, ...): every store it makes goes into storage it created itself.  A
+    selection of a channel (`im[{axis: 0}]`) is a *view*: filled with the padding
+    value without a copy, it overwrites the first colour channel."""
+    n = 0
+    for q in ('holopy.core.io.vis.display_image', IO + 'save_image'):
+        try:
+            fd = prog.func(q)
+        except (KeyError, AnalysisError):
+            continue
+        n += 1
+        loc = prog.loc(q, fd)
+        arg = fd.args.args[1].arg if q.endswith('save_image') else fd.args.args[0].arg
+        it = Interp(prog, max_depth=0)
+        it.analyze(q)
+        bad = []
+        for e, st, rs in writes(it):
+            # (the values: metadata stores go through `.attrs`, whose setter copies
+            # the mapping -- trusted, see level_note -- and are U1's business)
+            through_attrs = (e['kind'] == 'setattr' and e.get('attr') == 'attrs') or \
+                any(x[0] == 'attr' and x[2] == 'attrs' for x in subterms(st))
+            if through_attrs:
+                continue
+            if ('param', arg) in rs and ('maybe-fresh',) not in rs:
+                bad.append('line %d `%s`' % (e['lineno'], e.get('target_src') or
+                                             e.get('method', '')))
+        check.require(not bad, 'U14-export-leaves-image', q.rpartition('.')[2],
+                      'every store goes into storage the function created (copies), '
+                      'none into the image or a view of it', loc,
+                      fail_detail='%s store(s) into the image or a view of it: a '
+                      'two-colour image comes back from a TIFF with its first channel '
+                      'constant' % '; '.join(sorted(set(bad))[:3]))
+    check.floor('U14 export functions analysed', n, 2)
 
 
 STATELESS = (IO + 'pack_attrs', IO + 'unpack_attrs', IO + 'save', IO + 'save_image',
